@@ -655,7 +655,7 @@ def compare(ctx, pending, outs):
 
 def run(ctx, driver):
     r = ctx.rng
-    n = ctx.scale(600, 8000)
+    n = ctx.scale(1500, 12000)
     tmpdir = tempfile.mkdtemp(prefix="pds_c16_", dir="/tmp")
     lines, pending = [], []
     try:
